@@ -48,9 +48,13 @@ check('C10',
       'Coq theorems (Props/C10.v, axiom-free) about a model that mirrors concatenate check by check: for every eps >= 0, rt >= 0, '
       'every cut list (repeats, end points, empty pieces) and every erasure pattern, concatenating the time-split pieces returns class, '
       'length, rate, start time and channel labels of the original; pieces of another class give TypeError; a piece displaced by >= 1 '
-      'sample (spacing > eps) or >= 1 channel (rt < 1) gives ValueError. PARTIAL: frequency-axis split/concat, associativity over '
-      'groupings and the remaining rejection kinds are decided by the correspondence run + monitor only (model evaluated on the exact '
-      'observations of the very pieces given to pb.concatenate, two-level groupings included).',
+      'sample (spacing > eps) or >= 1 channel (rt < 1) gives ValueError; frequency-axis split/concat returns ledger and labels; '
+      'joining a first result with further pieces has the same outcome as joining all at once (C10_assoc_left, arbitrary pieces); pieces of a '
+      'split signal joined in ANY runs and the runs then joined give the whole signal (C10_any_grouping, C10_pieces, any depth); an ACCEPTED '
+      'list has one class, close rates / channel widths, every timed piece within eps of its place, contiguous joins / equal labels '
+      '(C10_accepted_*), hence a displaced, re-rated, re-labelled, wrong-length or off-start piece ANYWHERE in a list of any length is '
+      'rejected (C10_reject_*_anywhere). The correspondence run evaluates the model on the exact observations of the very pieces given '
+      'to pb.concatenate (two-level groupings included).',
       'Trusted: Coq kernel; astropy isclose semantics as transcribed (Time.isclose atol = 2 eps days, u.isclose rtol 1e-5); '
       'np.concatenate = list append; domain |cf|/bw <= 2^30, rates < 26 GHz.',
       'machine-checked proof in Coq (Q) of a check-by-check model + correspondence run (vm_compute)',
